@@ -92,9 +92,11 @@ def c03(ck, replay=None):
     thorough = ck.tier == 'thorough'
     rnd = random.Random(ck.seed * 1000003 + 303)
     if thorough:
-        mod = 48
-        parts = [('source<=4 x program<=2', 4, 2, 6, 1, 0), ('source<=2 x program<=3', 2, 3, 6, 1, 0),
-                 ('source<=3 x program<=3 (every case model-checked; residue class exported)', 3, 3, 1, mod, rnd.randrange(mod))]
+        parts = [('source<=2 x program<=3', 2, 3, 4, 1, 0),
+                 ('source<=4 x program<=2 (every case model-checked; one of 3 residue classes exported)', 4, 2, 3, 3,
+                  rnd.randrange(3)),
+                 ('source<=3 x program<=3 (every case model-checked; one of 96 residue classes exported)', 3, 3, 1, 96,
+                  rnd.randrange(96))]
     else:
         parts = [('source<=3 x program<=2', 3, 2, 1, 1, 0)]
     alphabet = None
@@ -105,11 +107,11 @@ def c03(ck, replay=None):
     canary_done = False
     try:
         # code -> spec: random programs / sources beyond the enumerated bounds (plain threads, and under detsched)
-        nper = 1500 if thorough else 150
+        nper = 1000 if thorough else 150
         r_items = [{'id': k, 'seed': rnd.randrange(1 << 30), 'count': nper, 'max_len': 8, 'max_depth': 6} for k in range(16)]
         futures.append(('random', bg.submit(ck.run_binder, 'streamops', r_items, timeout=2400,
                                             extra={'kind': 'random', 'detsched': False})))
-        nper = 250 if thorough else 40
+        nper = 200 if thorough else 40
         rs_items = [{'id': 100 + k, 'seed': rnd.randrange(1 << 30), 'count': nper, 'max_len': 6, 'max_depth': 4}
                     for k in range(16)]
         futures.append(('random-sched', bg.submit(ck.run_binder, 'streamops', rs_items, timeout=2400,
@@ -122,7 +124,9 @@ def c03(ck, replay=None):
         for name, ml, md, nparts, smod, sres in parts:
             for part in range(nparts):
                 res = ck.l1(f'StreamOps/{name}' + (f' part {part + 1}/{nparts}' if nparts > 1 else ''), 'StreamOps',
-                            ops_cfg(ml, md, nparts, part, smod, sres), timeout=2400, heap='16g', coverage=False)
+                            ops_cfg(ml, md, nparts, part, smod, sres,
+                                    invariants=['TypeOK', 'Laws', 'SampledChecks', 'ExportI'] if smod > 3 else None),
+                            timeout=2400, heap='16g', coverage=False)
                 if res.violation is not None:
                     continue
                 lines = printed_json(res.stdout)
@@ -189,7 +193,7 @@ def c03(ck, replay=None):
         bg.shutdown(wait=True)
     # shuffle (every enumerated shuffle case, capped) and the random programs are judged by TLC itself
     n_perms = len(perms)
-    cap = 60000 if thorough else 6000
+    cap = 30000 if thorough else 6000
     if len(perms) > cap:
         perms = rnd.sample(perms, cap)
     ptraces = [perm_trace(k, pm) for k, pm in enumerate(perms)]
@@ -197,11 +201,11 @@ def c03(ck, replay=None):
     def sig_of(t, v):
         return {'kind': (json.loads(v['last'])[0] if v.get('last') else None), 'ops': [d[0] for d in t['prog']]}
 
-    ck.validate('shuffle yields a permutation (IsPermutation evaluated by TLC on the real outputs)', 'StreamOpsCheck',
-                OPS_CHECK_CFG, ptraces, sig_of=sig_of, chunk=3000, timeout=1800)
     rtraces = [dict(r, ev=[{'ev': 'Observe'}]) for r in recorded]
+    ck.validate('shuffle yields a permutation (IsPermutation evaluated by TLC on the real outputs)', 'StreamOpsCheck',
+                OPS_CHECK_CFG, ptraces, sig_of=sig_of, chunk=4000, timeout=1800)
     ck.validate('random programs (depth<=6, sources<=8 over a 15-letter alphabet) on the real Stream, judged by TLC',
-                'StreamOpsCheck', OPS_CHECK_CFG, rtraces, sig_of=sig_of, chunk=1500, timeout=1800)
+                'StreamOpsCheck', OPS_CHECK_CFG, rtraces, sig_of=sig_of, chunk=2500, timeout=1800)
     ck.sample({'kind': 'case', 'note': 'source / program / observed result', **{k: recorded[0][k] for k in ('src', 'prog', 'got')}}
               if recorded else {'note': 'none'})
     ck.assumptions += [
@@ -216,8 +220,9 @@ def c03(ck, replay=None):
                     f'{len(sched_pool)} threaded cases re-run under detsched, {len(ptraces)} of {n_perms} shuffle cases and '
                     f'{len(rtraces)} random programs judged by TLC')
     if thorough:
-        ck.notes.append('depth-3 programs over sources of length 3: all 1.3e7 cases are model-checked (laws, need tables); the '
-                        'cases replayed on the real code are the residue class (VERIF_SEED-dependent) of a checksum mod 48')
+        ck.notes.append('depth-3 programs over sources <= 2 are replayed completely; for depth-3 over sources <= 3 and depth-2 '
+                        'over sources <= 4 every case is model-checked (TypeOK, Laws; need-table laws on all cases resp. on the exported ones) and one residue class of a case '
+                        'checksum (mod 96 / mod 3, chosen by VERIF_SEED) is replayed on the real code')
     ck.finish_rc = ck.finish(rule='every state of StreamOps.tla is one (source, program) case; TLC prints it with the expected '
                              'elements / raised element / need table computed from the TLA+ definitions; the binder builds the real '
                              'Stream (construction must pull nothing), consumes it by next()/collect()/drain() and compares')
@@ -226,8 +231,21 @@ def c03(ck, replay=None):
 def c03_replay(ck, rp):
     d = rp.get('detail', {})
     case, alphabet = d.get('case'), d.get('alphabet')
+    if case is None and 'item' in d and 'prog' in d['item']:
+        # a recorded execution that TLC rejected: run the same source / program / consumption mode again, judge again
+        it = d['item']
+        out = ck.run_binder('streamops', [{'id': 0, 'seed': 0, 'explicit': [{'src': it['src'], 'prog': it['prog'],
+                                                                             'mode': it.get('mode', 'iter')}]}],
+                            extra={'kind': 'random', 'detsched': False})
+        traces = [dict(r, ev=[{'ev': 'Observe'}]) for r in out.get('recorded', [])]
+        verd = ck.validate('replay', 'StreamOpsCheck', OPS_CHECK_CFG, traces) or []
+        print(json.dumps({'source': it['src'], 'program': it['prog'], 'mode': it.get('mode'),
+                          'observed': [r['got'] for r in out.get('recorded', [])], 'verdicts': verd}, default=repr)[:3000])
+        bad = bool(out.get('hangs')) or any(not v['accepted'] for v in verd)
+        print('replay: ' + ('REPRODUCED' if bad else 'not reproduced'))
+        return 1 if bad else 0
     if case is None:
-        print('replay: this violation carries no enumerated case (see the detail in the replay file)')
+        print('replay: this violation carries no executable case (see the detail in the replay file)')
         print(json.dumps(d, default=repr)[:3000])
         return 1
     kind = 'sched' if d.get('under_detsched') else 'cases'
